@@ -253,7 +253,8 @@ def run(ctx):
                     val = rnd.choice(['http', 'https']); tok = val; e['scheme'] = val
                 pairs.append(kk + '=' + tok)
             elems.append(rnd.choice([';', '; ']).join(pairs) if rnd.random() < 0.9 else ';'.join(pairs)); exp.append(e)
-        return rnd.choice([', ', ',']).join(elems), exp
+        # RFC 9110 5.6.1 list rule: elements are separated by OWS "," OWS, and OWS = *( SP / HTAB )
+        return rnd.choice([', ', ',', ', ', ',\t', ' ,', '\t,\t', ', \t', ' \t, ']).join(elems), exp
 
     def gen_ip():
         return rnd.choice(['.'.join(str(rnd.randint(0, 255)) for _ in range(4)), '127.0.0.1', '2001:db8::1', 'unknown'])
@@ -304,7 +305,7 @@ def run(ctx):
         k = rnd.random()
         if k < 0.5: h = rnd.choice(['example.com', 'a.b-c.example', 'localhost', '192.0.2.7', 'x']); lit = h
         else: h = rnd.choice(['::1', '2001:db8::1', 'fe80::a:b']); lit = '[' + h + ']'
-        p = rnd.choice([None, None, '', str(rnd.randint(0, 65535)), '0080'])
+        p = rnd.choice([None, None, '', str(rnd.randint(0, 65535)), '0080', rnd.choice(['0', '00', '1', '80', '443', '65535', '000000', '0000080'])])   # boundary ports: RFC 3986 port = *DIGIT, 0 is a port
         return (lit if p is None else lit + ':' + p), h, (None if not p else int(p))
 
     HOSTILE = {
